@@ -246,6 +246,14 @@ pub fn gen_af(rng: &mut Rng, max_n: usize) -> GenAf {
     // choose the attack structure
     let (n, mut atts, recipe): (usize, Vec<(usize, usize)>, &'static str) = if style < 3 {
         (0, vec![], "empty")
+    } else if style < 9 && max_n >= 6 {
+        // "skeptical gap": pairs p<->q attacking t, t attacks y (y in every preferred extension, not grounded,
+        // not ideal) NEXT TO a grounded part (an unattacked argument, possibly attacking a further one)
+        let mut a = vec![(0, 1), (1, 0), (0, 2), (1, 2), (2, 3)];
+        let mut n = 5; // 4 is the unattacked argument
+        if rng.chance(1, 2) && max_n >= 7 { a.push((4, 5)); a.push((5, 6)); n = 7; } else if rng.chance(1, 2) { a.push((4, 5)); n = 6; }
+        if rng.chance(1, 3) { a.push((4, 2)); }   // sometimes the grounded part decides t: y becomes undecided
+        (n, a, "skeptical_gap")
     } else if style < 40 {
         component(rng, max_n)
     } else if style < 75 {
